@@ -511,6 +511,8 @@ def one_run(tr, o, problem, case, opt, front_end, params, finish=False):
             complete=bool(mine) and len(mine) <= MAX_EVAL_EVENTS and params.get("workers", 1) != -1)
     info["last_eval_is_returned"] = (mine[-1][0] == rx) if mine else None
     info["x0"] = [fnum_dy(r["v"]) for r in vrows]
+    info["scipy_success"] = bool(getattr(res, "success", True))
+    info["scipy_message"] = str(getattr(res, "message", ""))
     info["last_vals"] = mine[-1][2] if mine else None
     info["ret_x"] = rx
     info["ret_fun"] = rf
@@ -601,6 +603,8 @@ def classify(case, info):
            "scale_is_identity": not d8,
            "has_pickup_or_solve": bool(case.get("made", {}).get("pickup") or case.get("made", {}).get("solve")),
            "index_var_on_dispersive_glass": case["family"] == "glass" and any(v["type"] == "index" for v in vs)}
+    cls["method"] = (case.get("params", {}).get("method") or "default") if case["front_end"] == "generic" else "n/a"
     if info is not None:
         cls["lens_left_at"] = info.get("lens_left_at")
+        cls["scipy_success"] = info.get("scipy_success")
     return cls
